@@ -57,50 +57,57 @@ def _drop_spares_newcomer(server):
 
 
 def _close_unblocks_workers(server):
-    """`ThreadPoolServer.close()` run on a never-started server whose threads and one connection are stand-ins that record
-    what is done to them: true iff the connection's socket was shut down (or the connection closed) BEFORE the first worker
-    is joined - i.e. a worker blocked reading from that connection would come back and the join would end"""
+    """`ThreadPoolServer.close()` run on a never-started server whose threads and TWO connections are stand-ins that record
+    what is done to them: true iff the stream of EVERY connection was ended in a way that wakes a thread blocked reading from
+    it - `sock.shutdown(SHUT_RDWR | SHUT_RD)`, or closing the stream / channel / connection (`SocketStream.close` shuts down
+    before it closes); a bare `sock.close()` or `shutdown(SHUT_WR)` does not - BEFORE the first worker is joined"""
+    import socket
     import rpyc
     events = []
 
-    class Sock(object):
-        def shutdown(self, how):
-            events.append("end")
+    def make_conn(name):
+        class Sock(object):
+            def shutdown(self, how):
+                if how in (socket.SHUT_RDWR, socket.SHUT_RD):
+                    events.append("end:" + name)
 
-        def close(self):
-            events.append("end")
+            def close(self):
+                events.append("sockclose:" + name)      # does not wake a blocked reader
 
-    class Stream(object):
-        sock = Sock()
+        class Stream(object):
+            sock = Sock()
 
-        def close(self):
-            events.append("end")
+            def close(self):
+                events.append("end:" + name)
 
-    class Chan(object):
-        stream = Stream()
+        class Chan(object):
+            stream = Stream()
 
-        def close(self):
-            events.append("end")
+            def close(self):
+                events.append("end:" + name)
 
-    class Conn(object):
-        _channel = Chan()
-        closed = False
+        class Conn(object):
+            _channel = Chan()
+            closed = False
 
-        def close(self):
-            events.append("end")
+            def close(self):
+                events.append("end:" + name)
 
-        def fileno(self):
-            return 7
+            def fileno(self):
+                return 7 if name == "a" else 9
+        return Conn()
 
     class Thread(object):
         def __init__(self, name):
             self.name = name
+            self.joined = False
 
         def join(self, timeout=None):
+            self.joined = True
             events.append(self.name)
 
         def is_alive(self):
-            return False
+            return not self.joined          # (a loop `while w.is_alive(): w.join(.1)` is as good as a plain join)
 
     try:
         srv = server.ThreadPoolServer(rpyc.VoidService, hostname="127.0.0.1", port=0, auto_register=False)
@@ -109,14 +116,16 @@ def _close_unblocks_workers(server):
     try:
         srv.workers = [Thread("worker")]
         srv.polling_thread = Thread("poller")
-        srv.fd_to_conn[7] = Conn()
+        srv.fd_to_conn[7] = make_conn("a")
+        srv.fd_to_conn[9] = make_conn("b")
         try:
             srv.close()
         except Exception as ex:  # noqa
             raise Inexpressible("ThreadPoolServer.close() cannot be run on stand-in threads / connections: %r" % (ex,))
         if "worker" not in events:
             raise Inexpressible("ThreadPoolServer.close() no longer joins its workers: %r" % (events,))
-        return "end" in events[:events.index("worker")]
+        before = events[:events.index("worker")]
+        return "end:a" in before and "end:b" in before
     finally:
         try:
             srv.listener.close()
@@ -126,20 +135,19 @@ def _close_unblocks_workers(server):
 
 def _accept_survives_transient_error(server):
     """the live `Server.accept` on a listener stand-in whose accept() fails once - with EMFILE, then again with ECONNABORTED -
-    and then lets the loop end (it switches `active` off and reports a timeout): true iff accept() comes back normally both
-    times instead of raising EOFError (which `start()` takes for the end of the server)"""
+    (and ENFILE, ENOBUFS, ENOMEM, EPROTO, ENETDOWN, EHOSTUNREACH, and EMFILE five times in a row) and then lets the loop end (it
+    switches `active` off and reports a timeout): true iff accept() comes back normally every time instead of raising EOFError (which `start()` takes for the end of the server)"""
     import errno
     import socket
     import rpyc
 
     class Listener(object):
-        def __init__(self, srv, e):
-            self.srv, self.e = srv, e
+        def __init__(self, srv, es):
+            self.srv, self.es = srv, list(es)
 
         def accept(self):
-            if self.e is not None:
-                e, self.e = self.e, None
-                raise OSError(e, "injected")
+            if self.es:
+                raise OSError(self.es.pop(0), "injected")
             self.srv.active = False
             raise socket.timeout("no connection")
 
@@ -149,7 +157,12 @@ def _accept_survives_transient_error(server):
         quiet.addHandler(logging.NullHandler())
     quiet.propagate = False
     out = []
-    for e in (errno.EMFILE, errno.ECONNABORTED):
+    real_sleep = server.time.sleep
+    server.time.sleep = lambda t: None          # (the pause after a failed accept is not what is measured)
+    runs = [[e] for e in (errno.EMFILE, errno.ENFILE, errno.ENOBUFS, errno.ENOMEM, errno.ECONNABORTED, errno.EPROTO,
+                          errno.ENETDOWN, errno.EHOSTUNREACH)]
+    runs.append([errno.EMFILE] * 5)             # the condition lasts: several failures in a row
+    for e in runs:
         try:
             srv = server.ThreadedServer(rpyc.VoidService, hostname="127.0.0.1", port=0, auto_register=False, logger=quiet)
         except OSError as ex:
@@ -167,6 +180,7 @@ def _accept_survives_transient_error(server):
                 raise Inexpressible("Server.accept raised %r on an injected accept() error" % (ex,))
         finally:
             real.close()
+    server.time.sleep = real_sleep
     return all(out)
 
 
